@@ -187,6 +187,12 @@ pub fn replay_main(path: &str) -> i32 {
             return 2;
         }
     };
+    if rf.profile == "sched" && std::env::var("QSIM_IS_SCHED").is_err() {
+        if let Ok(bin) = std::env::var("QSIM_BIN_SCHED") {
+            let st = Command::new(bin).args(["replay", path]).env("QSIM_IS_SCHED", "1").status();
+            return st.ok().and_then(|s| s.code()).unwrap_or(2);
+        }
+    }
     if rf.profile == "chk" && std::env::var("QSIM_IS_CHK").is_err() {
         if let Ok(bin) = std::env::var("QSIM_BIN_CHK") {
             // the violation was observed in the build with debug assertions and overflow checks
@@ -468,6 +474,10 @@ pub fn run_batch(exe: &Path, prop: &str, tier: Tier, seed: u64, total: u64, work
     br
 }
 
+pub fn n_workers_pub() -> u64 {
+    n_workers()
+}
+
 fn n_workers() -> u64 {
     if let Ok(s) = std::env::var("QSIM_WORKERS") {
         if let Ok(n) = s.parse::<u64>() {
@@ -480,8 +490,18 @@ fn n_workers() -> u64 {
 /// The build profiles a check runs under: (name, binary, share of the planned runs in percent).
 /// `rel` = what users ship (opt-level 2, no debug assertions); `chk` = opt-level 1 with debug assertions and
 /// overflow checks. The binaries are built by /verif/check, which exports their paths.
-pub fn profiles() -> Vec<(String, PathBuf, u64)> {
+pub fn profiles(prop: &str) -> Vec<(String, PathBuf, u64)> {
     let me = std::env::current_exe().expect("current_exe");
+    if prop == "C18" {
+        // the schedule engine (shuttle) lives in its own build of the harness
+        return match std::env::var("QSIM_BIN_SCHED") {
+            Ok(p) => vec![("sched".to_string(), PathBuf::from(p), 100)],
+            Err(_) => {
+                eprintln!("HARNESS-ERROR: QSIM_BIN_SCHED is not set (run through /verif/check)");
+                std::process::exit(2)
+            }
+        };
+    }
     let mut v = vec![("rel".to_string(), std::env::var("QSIM_BIN_REL").map(PathBuf::from).unwrap_or(me), 100)];
     if let Ok(p) = std::env::var("QSIM_BIN_CHK") {
         v.push(("chk".to_string(), PathBuf::from(p), 40));
@@ -490,7 +510,12 @@ pub fn profiles() -> Vec<(String, PathBuf, u64)> {
 }
 
 fn exe_of_profile(profile: &str) -> PathBuf {
-    profiles()
+    if profile == "sched" {
+        if let Ok(p) = std::env::var("QSIM_BIN_SCHED") {
+            return PathBuf::from(p);
+        }
+    }
+    profiles("")
         .into_iter()
         .find(|(n, _, _)| n == profile)
         .map(|(_, p, _)| p)
@@ -560,7 +585,7 @@ pub struct Extra {
 }
 
 /// `qsim <prop> quick|thorough`: the registered check.
-pub fn check_main(prop: &str, tier: Tier, extra: &dyn Fn(Tier, u64) -> Extra) -> i32 {
+pub fn check_main(prop: &str, tier: Tier, extra: &dyn Fn(Tier, u64, u64, &BTreeMap<u64, u64>) -> Extra) -> i32 {
     crate::core::install_quiet_panic_hook();
     let seed = seed_from_env();
     let planned = std::env::var("QSIM_RUNS")
@@ -578,12 +603,16 @@ pub fn check_main(prop: &str, tier: Tier, extra: &dyn Fn(Tier, u64) -> Extra) ->
     let mut distinct = 0u64;
     let mut per_profile = serde_json::Map::new();
     let mut digest_all = 0x5EED_u64;
-    for (pname, exe, share) in profiles() {
+    let mut first_digests: BTreeMap<u64, u64> = BTreeMap::new();
+    for (pname, exe, share) in profiles(prop) {
         // the chk profile re-runs a prefix of the same run indices: same cases, other build
         let total = (planned * share / 100).max(1);
         let tp = Instant::now();
         let br = run_batch(&exe, prop, tier, seed, total, n_workers());
         let wall_p = tp.elapsed().as_secs_f64();
+        if first_digests.is_empty() {
+            first_digests = br.digests.clone();
+        }
         for (r, case, v) in br.viols {
             found.push((pname.clone(), r, case, v));
         }
@@ -609,7 +638,7 @@ pub fn check_main(prop: &str, tier: Tier, extra: &dyn Fn(Tier, u64) -> Extra) ->
             }),
         );
     }
-    let ex = extra(tier, seed);
+    let ex = extra(tier, seed, planned, &first_digests);
     found.extend(ex.found);
     harness_errors.extend(ex.harness_errors);
     evaluations += ex.evaluations;
@@ -657,6 +686,7 @@ pub fn check_main(prop: &str, tier: Tier, extra: &dyn Fn(Tier, u64) -> Extra) ->
         } else {
             v.detail.clone()
         };
+        let mcase = cases::finalize(&mcase, &detail);
         let rf = ReplayFile {
             property: v.sig.property.clone(),
             signature: v.sig.clone(),
